@@ -7,6 +7,7 @@ package model
 import (
 	"fmt"
 	"html"
+	"regexp"
 	"strconv"
 	"strings"
 
@@ -119,7 +120,14 @@ var words = []string{"foo", "bar", "baz", "qux", "Lorem", "ipsum", "dolor", "sit
 
 const escapable = "!\"#$%&'()*+,-./:;<=>?@[\\]^_`{|}~"
 
-var entities = [][2]string{{"&amp;", "&"}, {"&lt;", "<"}, {"&gt;", ">"}, {"&quot;", "\""}, {"&copy;", "©"}, {"&#65;", "A"}, {"&#x41;", "A"}, {"&ouml;", "ö"}, {"&#1234;", "Ӓ"}, {"&nbsp;", " "}, {"&#35;", "#"}, {"&#42;", "*"}, {"&#x5B;", "["}, {"&#96;", "`"}}
+var entities = [][2]string{{"&amp;", "&"}, {"&lt;", "<"}, {"&gt;", ">"}, {"&quot;", "\""}, {"&copy;", "©"}, {"&#65;", "A"}, {"&#x41;", "A"}, {"&ouml;", "ö"}, {"&#1234;", "Ӓ"}, {"&nbsp;", " "}, {"&#35;", "#"}, {"&#42;", "*"}, {"&#x5B;", "["}, {"&#96;", "`"},
+	// numeric references stand for the code point with that number (128-159 are not windows-1252);
+	// zero, surrogates and numbers above U+10FFFF give U+FFFD
+	{"&#128;", "\u0080"}, {"&#x9F;", "\u009f"}, {"&#150;", "\u0096"}, {"&#0;", "\ufffd"}, {"&#xD800;", "\ufffd"}, {"&#1114112;", "\ufffd"}, {"&#X41;", "A"},
+	// long names, names standing for two code points
+	{"&CounterClockwiseContourIntegral;", "\u2233"}, {"&ngE;", "\u2267\u0338"},
+	// not references: no semicolon, no digits, too many digits, not a name of HTML5
+	{"&nbsp", "&nbsp"}, {"&#;", "&#;"}, {"&#x;", "&#x;"}, {"&#12345678;", "&#12345678;"}, {"&#xabcdef0;", "&#xabcdef0;"}, {"&hi?;", "&hi?;"}, {"&unknownname;", "&unknownname;"}, {"&Amp;", "&Amp;"}}
 
 var rawTags = []string{"<b>", "</b>", "<br/>", "<a href=\"x\">", "<i class='c'>", "<!-- c -->", "<?php x ?>", "<!DOCTYPE html>", "<![CDATA[x]]>", "<em data-x=y>", "<span\tid=\"s\">"}
 
@@ -318,7 +326,7 @@ func (g *gen) codeSpan() *inl {
 	return &inl{k: iCode, s: c}
 }
 
-var destChars = []string{"/url", "/a/b.c", "http://x.y/z?q=1#f", "rel", "/p(a)", "#frag", "/%20x", "/a\\(b", "/c\\)d", "/é"}
+var destChars = []string{"/url", "/a/b.c", "http://x.y/z?q=1#f", "rel", "/p(a)", "#frag", "/%20x", "/a\\(b", "/c\\)d", "/u&#128;x&ouml;", "/é"}
 
 func (g *gen) destTitle(in *inl) {
 	in.dest = destChars[g.r.Intn(len(destChars))]
@@ -331,7 +339,7 @@ func (g *gen) destTitle(in *inl) {
 	if g.r.Intn(3) == 0 {
 		in.hasTitle = true
 		in.tq = "\"'("[g.r.Intn(3)]
-		in.title = []string{"title", "a b", "T &amp; U", "it\\\"s", "x*y", ""}[g.r.Intn(6)]
+		in.title = []string{"title", "a b", "T &amp; U", "it\\\"s", "x*y", "", "t&#150;u &#0;"}[g.r.Intn(7)]
 		if g.multiline() {
 			in.title = []string{"multi\nline", "three\nline\ntitle", "it\\\"s\nmulti"}[g.r.Intn(3)]
 			g.f("inline:multiline-title")
@@ -837,7 +845,29 @@ func unescapeMD(s string) string {
 		}
 		sb.WriteByte(s[i])
 	}
-	return html.UnescapeString(sb.String())
+	return decodeRefs(sb.String())
+}
+
+var reNumericRef = regexp.MustCompile(`&#(?:[0-9]{1,7}|[xX][0-9a-fA-F]{1,6});`)
+
+// decodeRefs decodes character references the way CommonMark defines them:
+// named ones by the HTML5 table, numeric ones as the code point with that number.
+func decodeRefs(s string) string {
+	s = reNumericRef.ReplaceAllStringFunc(s, func(m string) string {
+		d, base := m[2:len(m)-1], 10
+		if d[0] == 'x' || d[0] == 'X' {
+			d, base = d[1:], 16
+		}
+		n, err := strconv.ParseUint(d, base, 32)
+		if err != nil || n == 0 || n > 0x10FFFF || n >= 0xD800 && n <= 0xDFFF {
+			return "\ufffd"
+		}
+		if n == '&' {
+			return "&amp;" // decoded below
+		}
+		return string(rune(n))
+	})
+	return html.UnescapeString(s)
 }
 
 func pctEncode(s string) string {
